@@ -203,6 +203,30 @@ var c03Scenarios = []c03S{
 			arr, ok := r.(*object.PanArr)
 			return ok && len(arr.Elems) == 2 && arrOfInts(arr.Elems[0], a+b, a, b) && isInt(arr.Elems[1], a)
 		}},
+	{"* unpacking produces exactly the arguments written, also when a later argument unpacks the same array", `xs := [a, b, 3]; f := {|| \0}; g := {|| \0}; f(*xs, 4, g(*xs, 5))`,
+		func(r object.PanObject, a, b int64) bool {
+			arr, ok := r.(*object.PanArr)
+			return ok && len(arr.Elems) == 5 && isInt(arr.Elems[0], a) && isInt(arr.Elems[1], b) && isInt(arr.Elems[2], 3) && isInt(arr.Elems[3], 4) && arrOfInts(arr.Elems[4], a, b, 3, 5)
+		}},
+	{"named parameters after * unpacking are the arguments written", `xs := [a, b, 3, 4, 5]; g := {|| \0}; {|p, q, r, s, t, u| [u, g(*xs, 7)]}(*xs, 6, g(*xs, 8))`,
+		func(r object.PanObject, a, b int64) bool {
+			arr, ok := r.(*object.PanArr)
+			return ok && len(arr.Elems) == 2 && isInt(arr.Elems[0], 6) && arrOfInts(arr.Elems[1], a, b, 3, 4, 5, 7)
+		}},
+	{"** unpacking produces exactly the keyword arguments written, also when unpacked twice", `o := {k: a}; p := {l: b}; f := {|| \_}; g := {|| \_}; [f(**o, **p), g(**o), o, p]`,
+		func(r object.PanObject, a, b int64) bool {
+			arr, ok := r.(*object.PanArr)
+			if !ok || len(arr.Elems) != 4 {
+				return false
+			}
+			n := func(o object.PanObject) int {
+				if po, ok := o.(*object.PanObj); ok {
+					return len(*po.Pairs)
+				}
+				return -1
+			}
+			return n(arr.Elems[0]) == 2 && n(arr.Elems[1]) == 1 && n(arr.Elems[2]) == 1 && n(arr.Elems[3]) == 1
+		}},
 	{"a method body sees its defining scope, not the receiver's properties as variables", `v := a; o := {v: b, get: m{|| v}}; o.get`,
 		func(r object.PanObject, a, b int64) bool { return isInt(r, a) }},
 }
